@@ -1,0 +1,18 @@
+//go:build verif
+
+package version
+
+// Contracts for the verification framework in /verif (comment-only file,
+// compiled only with -tags verif; see /verif/DESIGN.md).
+
+//@ # ---------------------------------------------------------------- C14: declared client version
+//@ func New(major, minor)
+//@   ensures result.major == major && result.minor == minor
+//@ func NewDefaultVersion()
+//@   ensures result.major == 0 && result.minor == 0
+//@ func Unmarshal(s)
+//@   flag logged
+//@   ensures err != nil ==> (result0.major == 0 && result0.minor == 0)
+//@   ensures err == nil ==> (versionShape(s) && indexOf(s, ".") >= 1 &&
+//@     result0.major == atoi(substr(s, 0, indexOf(s, "."))) && result0.minor == atoi(substr(s, indexOf(s, ".") + 1, len(s))))
+//@   ensures [accepts-well-formed] (versionShape(s) && atoiOK(substr(s, 0, indexOf(s, ".")), 16) && atoiOK(substr(s, indexOf(s, ".") + 1, len(s)), 16)) ==> err == nil
